@@ -115,11 +115,15 @@ pub struct Behaviour {
     /// tracing: number of log events emitted before the first and after the last await.
     #[serde(default)]
     pub logs: (u8, u8),
+    /// A panicking callback panics in the synchronous part of the function, before the future it
+    /// would return exists (hand-written step / hook functions and `World::new()` can do that).
+    #[serde(default, skip_serializing_if = "std::ops::Not::not")]
+    pub eager: bool,
 }
 
 impl Default for Behaviour {
     fn default() -> Self {
-        Self { awaits: Vec::new(), outcome: Outcome::Pass, logs: (0, 0) }
+        Self { awaits: Vec::new(), outcome: Outcome::Pass, logs: (0, 0), eager: false }
     }
 }
 
